@@ -23,13 +23,13 @@ Leaves == {Col("a"), I1, SubSel(Q0), LitList(<<INT(<<1>>), STR("s1")>>), Call("f
 Sibs == {Col("b"), Lit(INT(<<2>>))}
 AllBin == CmpOps \cup AddOps \cup MulOps
 RepBin == {"lt", "in", "add", "sub", "mul", "mod"}
-Wraps(ex, ops) ==
+Wraps(ex, ops, sibs) ==
     { Un(o, ex) : o \in {"not", "neg", "isnull", "isnotnull"} }
     \cup { Attr(ex, "n"), Sub(ex, "s1"), Call("g", <<ex>>), SubSel(SelOf(ex)), Or(<<Col("b"), ex, Col("c")>>) }
     \cup UNION { { Or(<<ex, x>>), Or(<<x, ex>>), And(<<ex, x>>), And(<<x, ex>>),
                    Between(ex, x, x), Between(x, ex, x), Between(x, x, ex),
                    Call("g", <<ex, x>>), Call("g", <<x, ex>>) }
-                 \cup { Bin(o, ex, x) : o \in ops } \cup { Bin(o, x, ex) : o \in ops } : x \in Sibs }
+                 \cup { Bin(o, ex, x) : o \in ops } \cup { Bin(o, x, ex) : o \in ops } : x \in sibs }
 
 SelWith(fr, wh, gr, od) == Select(FALSE, FALSE, <<Target(X, <<>>)>>, fr, wh, gr, od, <<>>, <<>>)
 CtxAll(ex) ==
@@ -97,7 +97,7 @@ Chunk(key) ==
 InitSpine == fam = "spine" /\ e \in Leaves /\ d = 0 /\ q = Q0
 NextSpine ==
     /\ fam = "spine" /\ d < MaxDepth
-    /\ e' \in { w \in Wraps(e, IF d < FullDepth THEN AllBin ELSE RepBin) : WFE(w) }
+    /\ e' \in { w \in Wraps(e, IF d < FullDepth THEN AllBin ELSE RepBin, IF d < FullDepth THEN Sibs ELSE {Col("b")}) : WFE(w) }
     /\ d' = d + 1 /\ UNCHANGED <<fam, q>>
 InitStmt == fam = "chunk" /\ e \in ChunkKeys /\ d = 0 /\ q = Q0
 NextStmt == fam = "chunk" /\ fam' = "stmt" /\ q' \in Chunk(e) /\ UNCHANGED <<e, d>>
